@@ -1,253 +1,414 @@
-"""Translator for C01: regenerates, from the working tree's src/pyramid/urldispatch.py, the facts about
-`_compile_route` / `RoutesMapper` that the model lean/PyramidModel/Route.lean assumes:
+"""Translator for C01: regenerates the facts the C01 theorems rest on by RUNNING pyramid.urldispatch of the tree under
+test (a fresh interpreter with `src_root` first on the path) and probing it — nothing is pattern-matched from the AST,
+so a refactoring of `_compile_route` / `RoutesMapper` that preserves behaviour gives the same tables and one that does
+not changes them.
 
- * the three module-level regexes (old-style `:name`, `*name` at the end, `{name:regex}` with one level of braces)
- * the default placeholder regex, the remainder group template, the end anchor, `re.escape` on both literal sites,
-   `name.split(':', 1)`
- * the shape of the `matcher` closure (remainder, and only it, through split_path_info)
- * the shape of `RoutesMapper.__call__` (iterate self.routelist in order, pattern first, `continue` on a failing
-   predicate, return at the first hit) and of `connect` (static routes are kept out of routelist)
-
-Each is mapped to an enum constructor of `Pyr.Route.Cfg` by a table of known forms; anything else becomes `unknown`
-/ `false`, which makes `Props/C01.lean`'s obligation `Gen.C01.cfg = Cfg.std` (by `decide`) fail.  Never guesses.
+Probed facts (Lean data in Gen/C01.lean, decided against the model in Props/C01.lean):
+ * compileProbes   for every pattern of a fixed cube (literals with every regex metacharacter, white space, non-ASCII,
+                   `%`, `*` inside; `{n}`, several per segment, `{n:rx}` incl. nested braces and a colon in the regex;
+                   old-style `:n`, mixed; `*rest`, `*` alone, `*rest` not at the end; missing leading slash; bad and
+                   repeated group names; unbalanced braces):
+     - regex       the text `_compile_route` hands to `re.compile` (recorded by a wrapper put in place of
+                   `pyramid.urldispatch.re` in the probe process), or "re.error"
+     - gen         the `%`-template of the generator, reconstructed from its *behaviour* (called with sentinel values)
+     - matches     what the returned matcher answers on a list of paths (None / dictionary, remainder as a tuple)
+   Lean decides `regexText (compileRoute pattern) = regex`, `genTemplate … = gen`, `matchToks … path = answer`.
+ * mapperProbes    scenarios run through a real `RoutesMapper` (connect + __call__ with a real Request): order, `continue`
+                   after a failing predicate, predicates see the match dictionary, static routes, re-connecting a name,
+                   empty / missing PATH_INFO, invalid UTF-8; Lean decides them against `runDecls` + `mapperCall`.
+ * cfg             the enum summary `Pyr.Route.Cfg`, *derived from the probes* (anchor = what follows the escaped literal,
+                   default placeholder regex = what `{x}` expands to, remainder template, literals escaped with re.escape,
+                   old-style / star / brace grammar and `split(':', 1)` by discriminating probes with a fixed expected
+                   text, loop order / static / remainder normalisation from the mapper scenarios); anything else is
+                   `unknown` / `false`.
+Fails closed: an unexpected exception, a missing recording, a sentinel clash or a module imported from elsewhere lands in
+`probeProblems`, which Props/C01.lean requires to be empty.
 """
-import ast, os
+import json, os, subprocess, sys
 
 summary = {}
 
-OLD_RE = {r'(\:[_a-zA-Z]\w*)': 'colonIdent'}
-STAR_RE = {r'\*(\w*)$': 'starWordEnd'}
-ROUTE_RE = {r'(\{[_a-zA-Z][^{}]*(?:\{[^{}]*\}[^{}]*)*\})': 'braceOneLevel'}
-PH_DEFAULT = {'[^/]+': 'notSlashPlus'}
-REST_TPL = {'(?P<%s>(?s:.*?))': 'lazyAllStar'}      # the pre-fc43a19 '(?P<%s>.*?)' (no LF) is deliberately not listed
-ANCHOR = {'\\Z': 'endOfString', '$': 'dollar'}
+ALL_META = "/a.b^c$d+e?f(g)h[i]j|k\\l-m~n#o&p%q r;s,t=u@v!w'x\"y<z>:/_"
+CUBE = [
+    # literals
+    '/', '', '/a', 'a', '//a', '/a/b/', ALL_META, '/a\tb\nc', '/caf\u00e9/\u65e5\u672c/\U0001f600', '/a*b/c', '/100%/%41', '/a b',
+    # new-style placeholders
+    '/{x}', '{x}', '/a/{x}/b', '/{x}{y}', '/{x}-{y}.{z}', '/{_a1}/{B}', '/{x}/', '/a.b/{x}',
+    # custom regexes
+    '/{x:\\d+}', '/{y:\\d{4}}/{m:\\d{2}}', '/{x:[a-z]+}', '/{x:(?:a|b)}', '/{x:.*}', '/{a:b:c}', '/{x:\\w+?}{y}', '/{x:(?s:.)}z',
+    '/{x:[^/]+}', '/{x:}',
+    # old style
+    '/:x', ':x', '/a/:x/b', '/:x-:y', '/:_a1/:b-c', '/a:b', '/a/:x/{y}', '/:1x', '/a:/b', '/::x',
+    # remainder
+    '/*r', '*r', '/a/*rest', '/{x}*r', '/:x*y', '/a*', '/a/*', '/*r/b', '/a*b*c', '/a/*rest\n', '/b/*1x', '/a/{x}/*_r9',
+    # refused / odd
+    '/{x}/{x}', '/{x}*x', '/{a-b}', '/{a b}', '/{a{b}', '/{}', '/{x', '/x}', '/{x:a{1}b{2}}',
+]
+COMMON_PATHS = ['/', '/a', '/a/b', '/a/v/b', '/v', '/x-y.z', '/a/b/../c//d/', '/a\n', '/a/b\nc', '//a']
+EXTRA_PATHS = {
+    ALL_META: [ALL_META, ALL_META.replace('.', 'X'), ALL_META + '\n', ALL_META.upper()],
+    '/a\tb\nc': ['/a\tb\nc', '/a b c'],
+    '/caf\u00e9/\u65e5\u672c/\U0001f600': ['/caf\u00e9/\u65e5\u672c/\U0001f600', '/cafe/\u65e5\u672c/\U0001f600'],
+    '/a*b/c': ['/a*b/c', '/aab/c', '/ab/c'],
+    '/100%/%41': ['/100%/%41', '/100%/A'],
+    '/a b': ['/a b'],
+    '/a/b/': ['/a/b/', '/a/b'],
+    '/{x}{y}': ['/xyz', '/xy'],
+    '/{x}-{y}.{z}': ['/a-b-c.d.e', '/-.'],
+    '/{_a1}/{B}': ['/p/q'],
+    '/a.b/{x}': ['/a.b/v', '/aXb/v'],
+    '/{x:\\d+}': ['/2024', '/20a', '/'],
+    '/{y:\\d{4}}/{m:\\d{2}}': ['/2024/07', '/202/07', '/2024/7', '/20245/07'],
+    '/{x:[a-z]+}': ['/abc', '/aBc'],
+    '/{x:(?:a|b)}': ['/a', '/b', '/ab', '/c'],
+    '/{x:.*}': ['/a/b/c', '/a\nb', '/'],
+    '/{a:b:c}': ['/b:c', '/bc'],
+    '/{x:\\w+?}{y}': ['/abc', '/a'],
+    '/{x:(?s:.)}z': ['/\nz', '/az', '/z'],
+    '/{x:}': ['/', '/a'],
+    '/:x-:y': ['/a-b-c', '/a-'],
+    '/:_a1/:b-c': ['/p/q-c', '/p/q'],
+    '/a:b': ['/av', '/a:b'],
+    '/a/:x/{y}': ['/a/:x/v', '/a/u/v'],
+    '/:1x': ['/:1x', '/v'],
+    '/a:/b': ['/a:/b'],
+    '/::x': ['/:v', '/v'],
+    '/*r': ['/a/./b/../c//', '/..', '/a/b\nc/d'],
+    '/a/*rest': ['/a/La Pe\u00f1a/x', '/a/', '/a', '/a/\n', '/a/b/c\n'],
+    '/{x}*r': ['/v', '/v/w', '/v/w/..'],
+    '/:x*y': ['/v/w'],
+    '/a*': ['/a', '/a*', '/aa'],
+    '/a/*': ['/a/', '/a/*', '/a/b'],
+    '/*r/b': ['/*r/b', '/x/b'],
+    '/a*b*c': ['/a*b', '/a*bxyz', '/a*b/x/y', '/a*b*c'],
+    '/a/{x}/*_r9': ['/a/v/w/x', '/a/v/', '/a/v'],
+    '/{a{b}': ['/{av', '/{a{b}'],
+    '/{}': ['/{}'],
+    '/{x': ['/{x'],
+    '/x}': ['/x}'],
+    '/{x:a{1}b{2}}': ['/abb', '/ab'],
+}
+# regex text of the cube -> the Lean tree that prints to it (checked in Lean: the library is looked up by printed text)
+RX_LIB = [
+    ('\\d+', '.rep true 1 none (.esc .d false)'),
+    ('\\d{4}', '.rep true 4 (some 4) (.esc .d false)'),
+    ('\\d{2}', '.rep true 2 (some 2) (.esc .d false)'),
+    ('[a-z]+', ".rep true 1 none (.set false [.range 'a' 'z'])"),
+    ('(?:a|b)', ".alt (.chr 'a') (.chr 'b')"),
+    ('.*', '.rep true 0 none .any'),
+    ('b:c', ".seq (.chr 'b') (.seq (.chr ':') (.chr 'c'))"),
+    ('\\w+?', '.rep false 1 none (.esc .w false)'),
+    ('(?s:.)', '.all'),
+    ('', '.eps'),
+    ('a{1}b{2}', ".seq (.rep true 1 (some 1) (.chr 'a')) (.rep true 2 (some 2) (.chr 'b'))"),
+]
+
+# mapper scenarios: (declarations [(name, pattern, predicates, static)], PATH_INFO as a latin-1 str or None)
+# predicate = True / False (constant) or ('eq', name, value)  (info['match'].get(name) == value)
+MAPPER = [
+    ([('a', '/x/{id}', [], False), ('b', '/x/*rest', [], False)], '/x/7'),
+    ([('b', '/x/*rest', [], False), ('a', '/x/{id}', [], False)], '/x/7'),
+    ([('a', '/x/{id}', [False], False), ('b', '/x/*rest', [], False), ('c', '/{p}/7', [], False)], '/x/7'),
+    ([('a', '/x/{id}', [True, False], False), ('b', '/x/*rest', [False], False), ('c', '/{p}/7', [True], False)], '/x/7'),
+    ([('a', '/x/{id}', [False], False), ('b', '/x/*rest', [False], False)], '/x/7'),
+    ([('a', '/x/{id}', [('eq', 'id', '7')], False), ('b', '/x/*rest', [], False)], '/x/7'),
+    ([('a', '/x/{id}', [('eq', 'id', '8')], False), ('b', '/x/*rest', [], False)], '/x/7'),
+    ([('s', '/x/{id}', [], True), ('b', '/x/*rest', [], False)], '/x/7'),
+    ([('s', '/x/{id}', [], True)], '/x/7'),
+    ([('a', '/x/{id}', [], False), ('b', '/x/*rest', [], False), ('a', '/{p}/7', [], False)], '/x/7'),
+    ([('a', '/x/{id}', [], False), ('b', '/y', [], False), ('a', '/x/{id}', [], True)], '/x/7'),
+    ([('a', '/x/{id}', [], False), ('a', '/{x}/{x}', [], False), ('b', '/x/*rest', [], False)], '/x/7'),
+    ([('root', '/', [], False), ('any', '/*r', [], False)], ''),
+    ([('root', '/', [], False), ('any', '/*r', [], False)], None),
+    ([('any', '/*r', [], False), ('root', '/', [], False)], '/'),
+    ([('any', '/*r', [], False)], '/\xff'),
+    ([('any', '/*r', [], False)], '/\xc3\xa9/\xe6\x97\xa5'),
+    ([('any', '/*r', [], False)], '/\xc0\xaf'),
+    ([], '/x'),
+    ([('r', '/a/*rest', [], False)], '/a/b/./c/../d//e\nf/'),
+    ([('a', '/foo', [], False)], '/foo\n'),
+]
+
+
+def _probe():
+    """runs in the probe interpreter; prints one JSON object"""
+    out = {'problems': []}
+    try:
+        import re as real_re
+        import pyramid.urldispatch as UD
+        out['module'] = os.path.realpath(UD.__file__)
+        recorded = []
+
+        class ReProxy:
+            def __getattr__(self, k):
+                return getattr(real_re, k)
+
+            def compile(self, pattern, flags=0):
+                recorded.append(pattern)
+                return real_re.compile(pattern, flags)
+        if getattr(UD, 're', None) is not real_re:
+            out['problems'].append('pyramid.urldispatch has no module attribute `re` to wrap')
+        UD.re = ReProxy()
+        probes = []
+        for pat in CUBE:
+            del recorded[:]
+            rec = {'pattern': pat}
+            try:
+                matcher, generator = UD._compile_route(pat)
+            except real_re.error:
+                rec['regex'] = None
+                probes.append(rec)
+                continue
+            if not recorded:
+                out['problems'].append('no re.compile recorded for %r' % pat)
+                continue
+            rec['regex'] = recorded[-1]
+            if not isinstance(rec['regex'], str):
+                out['problems'].append('regex of %r is not a str' % pat)
+                continue
+            # generator template from behaviour: sentinel values for every group name
+            names = list(real_re.compile(rec['regex']).groupindex)
+            sent = {n: 'ZQ%dQZ' % i for i, n in enumerate(names)}
+            if any(s in pat for s in sent.values()):
+                out['problems'].append('sentinel clash in %r' % pat)
+                continue
+            try:
+                g = generator(dict(sent))
+                g = g.replace('%', '%%')
+                for n, s in sent.items():
+                    if g.count(s) != 1:
+                        raise ValueError('sentinel of %s occurs %d times' % (n, g.count(s)))
+                    g = g.replace(s, '%(' + n + ')s')
+                rec['gen'] = g
+            except Exception as e:
+                out['problems'].append('generator of %r: %s: %s' % (pat, type(e).__name__, e))
+                continue
+            ms = []
+            for path in COMMON_PATHS + EXTRA_PATHS.get(pat, []):
+                try:
+                    d = matcher(path)
+                except Exception as e:
+                    out['problems'].append('matcher of %r on %r: %s: %s' % (pat, path, type(e).__name__, e))
+                    continue
+                if d is None:
+                    ms.append([path, None])
+                else:
+                    env = []
+                    for k, v in d.items():
+                        if isinstance(v, tuple) and all(isinstance(x, str) for x in v):
+                            env.append([k, 't', list(v)])
+                        elif isinstance(v, str):
+                            env.append([k, 's', v])
+                        else:
+                            out['problems'].append('matcher of %r on %r: value %r' % (pat, path, v))
+                    ms.append([path, env])
+            rec['matches'] = ms
+            probes.append(rec)
+        out['compile'] = probes
+        # mapper scenarios, with the real re back in place
+        UD.re = real_re
+        from pyramid.request import Request
+        from pyramid.exceptions import URLDecodeError
+        mp = []
+        for decls, path in MAPPER:
+            mapper = UD.RoutesMapper()
+            ids = {}
+
+            def mk(p):
+                if p is True or p is False:
+                    return lambda info, request, p=p: p
+                return lambda info, request, p=p: info['match'].get(p[1]) == p[2]
+            for i, (name, pattern, preds, static) in enumerate(decls):
+                try:
+                    r = mapper.connect(name, pattern, predicates=[mk(p) for p in preds], static=static)
+                    ids[id(r)] = i
+                except real_re.error:
+                    pass
+            env = {'REQUEST_METHOD': 'GET', 'SCRIPT_NAME': '', 'SERVER_NAME': 'localhost', 'SERVER_PORT': '80',
+                   'wsgi.url_scheme': 'http', 'HTTP_HOST': 'localhost:80', 'QUERY_STRING': ''}
+            if path is not None:
+                env['PATH_INFO'] = path
+            try:
+                info = mapper(Request(env))
+                if info['route'] is None:
+                    res = 'none' if info['match'] is None else 'unknown: match without route'
+                else:
+                    res = {'id': ids.get(id(info['route']), 999),
+                           'match': [[k, 't', list(v)] if isinstance(v, tuple) else [k, 's', v] for k, v in info['match'].items()]}
+            except URLDecodeError:
+                res = 'urldecode'
+            except Exception as e:
+                res = 'unknown: %s' % type(e).__name__
+            if isinstance(res, str) and res.startswith('unknown'):
+                out['problems'].append('mapper scenario %r %r: %s' % (decls, path, res))
+            mp.append({'decls': [[n, p, [x if isinstance(x, bool) else list(x) for x in ps], s] for n, p, ps, s in decls],
+                       'path': path, 'out': res})
+        out['mapper'] = mp
+    except Exception as e:
+        out['problems'].append('probe failed: %s: %s' % (type(e).__name__, e))
+    print(json.dumps(out))
+
+
+# ---------------------------------------------------------------------------------------------- Lean rendering
 
 
 def lean_str(s):
-    if s is None:
-        return '"<not found>"'
     out = []
     for c in s:
         if c == '\\':
             out.append('\\\\')
         elif c == '"':
             out.append('\\"')
-        elif 32 <= ord(c) < 127:
-            out.append(c)
+        elif 32 <= ord(c) < 127 or ord(c) > 0xa0:
+            out.append(c)                      # Lean source is UTF-8
         else:
-            out.append('\\u{%x}' % ord(c))
+            out.append('\\x%02x' % ord(c))
     return '"' + ''.join(out) + '"'
 
 
-def _const_str(node):
-    return node.value if isinstance(node, ast.Constant) and isinstance(node.value, str) else None
+def lean_text(s):
+    return lean_str(s) + '.toList'
 
 
-def _module_regex(tree, name):
-    """NAME = re.compile(<str>)"""
-    for n in tree.body:
-        if isinstance(n, ast.Assign) and len(n.targets) == 1 and isinstance(n.targets[0], ast.Name) and n.targets[0].id == name:
-            v = n.value
-            if (isinstance(v, ast.Call) and isinstance(v.func, ast.Attribute) and v.func.attr == 'compile'
-                    and isinstance(v.func.value, ast.Name) and v.func.value.id == 're' and len(v.args) == 1 and not v.keywords):
-                return _const_str(v.args[0])
-    return None
+def lean_env(env):
+    if env is None:
+        return 'none'
+    items = []
+    for k, t, v in env:
+        if t == 's':
+            items.append('(%s, .str %s)' % (lean_text(k), lean_text(v)))
+        else:
+            items.append('(%s, .segs [%s])' % (lean_text(k), ', '.join(lean_text(x) for x in v)))
+    return 'some [%s]' % ', '.join(items)
 
 
-def _func(tree, name, cls=None):
-    for n in ast.walk(tree):
-        if cls is not None:
-            if isinstance(n, ast.ClassDef) and n.name == cls:
-                for f in n.body:
-                    if isinstance(f, ast.FunctionDef) and f.name == name:
-                        return f
-        elif isinstance(n, ast.FunctionDef) and n.name == name:
-            return n
-    return None
-
-
-def _is_attr(node, obj, attr):
-    return isinstance(node, ast.Attribute) and node.attr == attr and isinstance(node.value, ast.Name) and node.value.id == obj
-
-
-def _appends_to(stmt, obj, attr):
-    """`<obj>.<attr>.append(x)` as an expression statement; returns x"""
-    if isinstance(stmt, ast.Expr) and isinstance(stmt.value, ast.Call):
-        c = stmt.value
-        if isinstance(c.func, ast.Attribute) and c.func.attr == 'append' and len(c.args) == 1:
-            t = c.func.value
-            if attr is None:
-                if isinstance(t, ast.Name) and t.id == obj:
-                    return c.args[0]
-            elif _is_attr(t, obj, attr):
-                return c.args[0]
-    return None
+def lean_opt_str(s):
+    return 'none' if s is None else 'some %s' % lean_str(s)
 
 
 def facts(src_root):
-    path = os.path.join(src_root, 'pyramid', 'urldispatch.py')
-    src = open(path).read()
-    tree = ast.parse(src)
-    f = {}
-    f['old_re'] = _module_regex(tree, 'old_route_re')
-    f['star_re'] = _module_regex(tree, 'star_at_end')
-    f['route_re'] = _module_regex(tree, 'route_re')
-    cr = _func(tree, '_compile_route')
-    f['ph_default'] = f['rest_tpl'] = f['anchor'] = None
-    f['escape_sites'] = []          # what is appended to rpat besides groups: 're.escape' or something else
-    f['split_first_colon'] = False
-    f['rest_normalised'] = False
-    if cr is not None:
-        rpat_appends = []
-        for n in ast.walk(cr):
-            # reg = '<default>' in the else branch of `if ':' in name`
-            if isinstance(n, ast.If) and isinstance(n.test, ast.Compare) and _const_str(n.test.left) == ':' \
-                    and len(n.test.ops) == 1 and isinstance(n.test.ops[0], ast.In):
-                if len(n.orelse) == 1 and isinstance(n.orelse[0], ast.Assign) and len(n.orelse[0].targets) == 1 \
-                        and isinstance(n.orelse[0].targets[0], ast.Name) and n.orelse[0].targets[0].id == 'reg':
-                    f['ph_default'] = _const_str(n.orelse[0].value)
-                # name, reg = name.split(':', 1)
-                if len(n.body) == 1 and isinstance(n.body[0], ast.Assign) and isinstance(n.body[0].value, ast.Call):
-                    c = n.body[0].value
-                    tg = n.body[0].targets[0]
-                    if (isinstance(c.func, ast.Attribute) and c.func.attr == 'split' and len(c.args) == 2
-                            and _const_str(c.args[0]) == ':' and isinstance(c.args[1], ast.Constant) and c.args[1].value == 1
-                            and isinstance(tg, ast.Tuple) and [getattr(e, 'id', None) for e in tg.elts] == ['name', 'reg']):
-                        f['split_first_colon'] = True
-            x = _appends_to(n, 'rpat', None) if isinstance(n, ast.Expr) else None
-            if x is not None:
-                rpat_appends.append(x)
-            # pattern = ''.join(rpat) + <anchor>
-            if isinstance(n, ast.Assign) and len(n.targets) == 1 and isinstance(n.targets[0], ast.Name) and n.targets[0].id == 'pattern':
-                v = n.value
-                if isinstance(v, ast.BinOp) and isinstance(v.op, ast.Add) and isinstance(v.left, ast.Call) \
-                        and isinstance(v.left.func, ast.Attribute) and v.left.func.attr == 'join' and _const_str(v.left.func.value) == '' \
-                        and len(v.left.args) == 1 and isinstance(v.left.args[0], ast.Name) and v.left.args[0].id == 'rpat':
-                    f['anchor'] = _const_str(v.right)
-                else:
-                    f['anchor'] = None
-        for x in rpat_appends:
-            if isinstance(x, ast.Call) and _is_attr(x.func, 're', 'escape') and len(x.args) == 1 and isinstance(x.args[0], ast.Name):
-                f['escape_sites'].append('re.escape(%s)' % x.args[0].id)
-            elif isinstance(x, ast.BinOp) and isinstance(x.op, ast.Mod) and _const_str(x.left) is not None \
-                    and isinstance(x.right, ast.Name) and x.right.id == 'remainder':
-                f['rest_tpl'] = _const_str(x.left)
-            elif isinstance(x, ast.Name) and x.id == 'name':
-                # name = f'(?P<{name}>{reg})'
-                pass
-            else:
-                f['escape_sites'].append('other:' + ast.dump(x)[:60])
-        # the named group: name = f'(?P<{name}>{reg})'
-        f['group_tpl'] = None
-        for n in ast.walk(cr):
-            if isinstance(n, ast.Assign) and isinstance(n.value, ast.JoinedStr):
-                parts = []
-                for v in n.value.values:
-                    if isinstance(v, ast.Constant):
-                        parts.append(v.value)
-                    elif isinstance(v, ast.FormattedValue) and isinstance(v.value, ast.Name) and v.conversion == -1 and v.format_spec is None:
-                        parts.append('{%s}' % v.value.id)
-                    else:
-                        parts.append('{?}')
-                f['group_tpl'] = ''.join(parts)
-        # matcher closure: for k, v in m.groupdict().items(): if k == remainder: d[k] = split_path_info(v) else: d[k] = v
-        m = None
-        for n in cr.body:
-            if isinstance(n, ast.FunctionDef) and n.name == 'matcher':
-                m = n
-        if m is not None:
-            for n in ast.walk(m):
-                if isinstance(n, ast.If) and isinstance(n.test, ast.Compare) and len(n.test.ops) == 1 and isinstance(n.test.ops[0], ast.Eq) \
-                        and isinstance(n.test.left, ast.Name) and isinstance(n.test.comparators[0], ast.Name) \
-                        and n.test.comparators[0].id == 'remainder' and len(n.body) == 1 and len(n.orelse) == 1:
-                    b, o = n.body[0], n.orelse[0]
-                    if isinstance(b, ast.Assign) and isinstance(b.value, ast.Call) and isinstance(b.value.func, ast.Name) \
-                            and b.value.func.id == 'split_path_info' and len(b.value.args) == 1 \
-                            and isinstance(o, ast.Assign) and isinstance(o.value, ast.Name) \
-                            and isinstance(b.value.args[0], ast.Name) and b.value.args[0].id == o.value.id:
-                        f['rest_normalised'] = True
-    # RoutesMapper.__call__
-    f['loop_in_order'] = False
-    call = _func(tree, '__call__', 'RoutesMapper')
-    if call is not None:
-        loops = [n for n in ast.walk(call) if isinstance(n, ast.For)]
-        if len(loops) == 1:
-            lp = loops[0]
-            var = lp.target.id if isinstance(lp.target, ast.Name) else None
-            ok = var is not None and _is_attr(lp.iter, 'self', 'routelist') and not lp.orelse
-            ok = ok and not any(isinstance(n, ast.Break) for n in ast.walk(lp))
-            if ok and len(lp.body) == 2 and isinstance(lp.body[0], ast.Assign) and isinstance(lp.body[1], ast.If):
-                a, i = lp.body
-                mvar = a.targets[0].id if isinstance(a.targets[0], ast.Name) else None
-                ok = (isinstance(a.value, ast.Call) and _is_attr(a.value.func, var, 'match') and len(a.value.args) == 1
-                      and isinstance(i.test, ast.Compare) and isinstance(i.test.left, ast.Name) and i.test.left.id == mvar
-                      and len(i.test.ops) == 1 and isinstance(i.test.ops[0], ast.IsNot)
-                      and isinstance(i.test.comparators[0], ast.Constant) and i.test.comparators[0].value is None and not i.orelse)
-                if ok:
-                    # inside: … `if preds and not all(p(info, request) for p in preds): continue` … `return info`
-                    conts = [k for k, s in enumerate(i.body) if isinstance(s, ast.If) and len(s.body) == 1 and isinstance(s.body[0], ast.Continue)
-                             and not s.orelse and any(isinstance(c, ast.Call) and getattr(c.func, 'id', None) == 'all' for c in ast.walk(s.test))
-                             and isinstance(s.test, ast.BoolOp) and isinstance(s.test.op, ast.And)
-                             and any(isinstance(v, ast.UnaryOp) and isinstance(v.op, ast.Not) for v in s.test.values)]
-                    rets = [k for k, s in enumerate(i.body) if isinstance(s, ast.Return)]
-                    others = [s for s in i.body if isinstance(s, (ast.If, ast.For, ast.While, ast.Try, ast.Return))]
-                    preds_src = any(isinstance(s, ast.Assign) and _is_attr(s.value, var, 'predicates') for s in i.body)
-                    ok = len(conts) == 1 and len(rets) == 1 and conts[0] < rets[0] and len(others) == 2 and preds_src
-                f['loop_in_order'] = bool(ok)
-    # connect: if not static: self.routelist.append(route) else: self.static_routes.append(route)
-    f['static_kept_out'] = False
-    con = _func(tree, 'connect', 'RoutesMapper')
-    if con is not None:
-        appends = [n for n in ast.walk(con) if isinstance(n, ast.Expr) and _appends_to(n, 'self', 'routelist') is not None]
-        for n in ast.walk(con):
-            if isinstance(n, ast.If) and isinstance(n.test, ast.UnaryOp) and isinstance(n.test.op, ast.Not) \
-                    and isinstance(n.test.operand, ast.Name) and n.test.operand.id == 'static' \
-                    and len(n.body) == 1 and len(n.orelse) == 1 \
-                    and _appends_to(n.body[0], 'self', 'routelist') is not None \
-                    and _appends_to(n.orelse[0], 'self', 'static_routes') is not None and len(appends) == 1:
-                f['static_kept_out'] = True
+    src_root = os.path.realpath(src_root)
+    env = dict(os.environ, PYTHONPATH=src_root + os.pathsep + os.path.dirname(os.path.abspath(__file__)))
+    code = 'import sys; sys.path.insert(0, %r); import c01 as M; M._probe()' % os.path.dirname(os.path.abspath(__file__))
+    try:
+        p = subprocess.run([sys.executable, '-W', 'ignore', '-c', code], env=env, stdout=subprocess.PIPE, stderr=subprocess.PIPE, timeout=120)
+        if p.returncode != 0:
+            return {'problems': ['probe interpreter exited %s: %s' % (p.returncode, p.stderr.decode(errors='replace')[-300:])]}
+        f = json.loads(p.stdout.decode().strip().splitlines()[-1])
+    except Exception as e:
+        return {'problems': ['probe could not run: %s: %s' % (type(e).__name__, e)]}
+    mod = f.get('module', '')
+    if not mod.startswith(src_root + os.sep):
+        f.setdefault('problems', []).append('pyramid.urldispatch was imported from %s, not from %s' % (mod, src_root))
     return f
+
+
+def derive_cfg(f):
+    """the enum summary, from behaviour only"""
+    import re
+    rx = {p['pattern']: p.get('regex') for p in f.get('compile', [])}
+    gen = {p['pattern']: p.get('gen') for p in f.get('compile', [])}
+    mt = {p['pattern']: {a: b for a, b in p.get('matches', [])} for p in f.get('compile', [])}
+    cfg = {}
+    # anchor: what follows the (escaped) literal of '/a'
+    a = rx.get('/a')
+    anchor = a[2:] if isinstance(a, str) and a.startswith('/a') else None
+    cfg['anchor'] = {'\\Z': 'endOfString', '$': 'dollar'}.get(anchor, 'unknown')
+    tail = anchor or ''
+    # default placeholder: '/{x}' = '/(?P<x>' D ')' anchor
+    d = rx.get('/{x}')
+    D = d[len('/(?P<x>'):len(d) - len(')' + tail)] if isinstance(d, str) and d.startswith('/(?P<x>') and d.endswith(')' + tail) else None
+    cfg['phDefault'] = {'[^/]+': 'notSlashPlus'}.get(D, 'unknown')
+    # remainder group: '/*r' = '/' G anchor with the name replaced by %s
+    r = rx.get('/*r')
+    G = r[1:len(r) - len(tail)].replace('<r>', '<%s>', 1) if isinstance(r, str) and r.startswith('/') and r.endswith(tail) else None
+    cfg['restTpl'] = {'(?P<%s>(?s:.*?))': 'lazyAllStar'}.get(G, 'unknown')
+    # literals: exactly re.escape, prefix and inner literal alike
+    lit_ok = rx.get(ALL_META) == re.escape(ALL_META) + tail and rx.get('/a.b/{x}') == re.escape('/a.b/') + '(?P<x>%s)' % D + tail \
+        and rx.get('/{x}-{y}.{z}') == '/(?P<x>%s)\\-(?P<y>%s)\\.(?P<z>%s)' % (D, D, D) + tail
+    cfg['literals'] = 'escaped' if lit_ok else 'unknown'
+    # grammar of the three module regexes and the colon split, by discriminating probes
+    old_ok = rx.get('/:_a1/:b-c') == '/(?P<_a1>%s)/(?P<b>%s)\\-c' % (D, D) + tail and rx.get('/:1x') == '/:1x' + tail \
+        and rx.get('/a/:x/{y}') == '/a/:x/(?P<y>%s)' % D + tail and rx.get('/a:b') == '/a(?P<b>%s)' % D + tail
+    cfg['oldRe'] = 'colonIdent' if old_ok else 'unknown'
+    star_ok = rx.get('/a*') == '/a' + tail and rx.get('/*r/b') == '/\\*r/b' + tail and rx.get('/a*b*c') == '/a\\*b' + (G or '?') % 'c' + tail \
+        and rx.get('/a/*rest\n', 0) is None and rx.get('/b/*1x', 0) is None
+    cfg['starRe'] = 'starWordEnd' if star_ok else 'unknown'
+    brace_ok = rx.get('/{y:\\d{4}}/{m:\\d{2}}') == '/(?P<y>\\d{4})/(?P<m>\\d{2})' + tail and rx.get('/{a{b}') == '/\\{a(?P<b>%s)' % D + tail \
+        and rx.get('/{}') == '/\\{\\}' + tail and rx.get('/{x:a{1}b{2}}') == '/(?P<x>a{1}b{2})' + tail
+    cfg['routeRe'] = 'braceOneLevel' if brace_ok else 'unknown'
+    cfg['splitFirstColon'] = 'true' if rx.get('/{a:b:c}') == '/(?P<a>b:c)' + tail else 'false'
+    # mapper behaviour
+    mp = f.get('mapper', [])
+    outs = [m.get('out') for m in mp]
+
+    def hit(i):
+        return outs[i]['id'] if i < len(outs) and isinstance(outs[i], dict) else None
+    loop_ok = len(outs) == len(MAPPER) and hit(0) == 0 and hit(1) == 0 and hit(2) == 1 and hit(3) == 2 and outs[4] == 'none' \
+        and hit(5) == 0 and hit(6) == 1
+    cfg['loopInOrder'] = 'true' if loop_ok else 'false'
+    cfg['staticKeptOut'] = 'true' if len(outs) == len(MAPPER) and hit(7) == 1 and outs[8] == 'none' and outs[10] == 'none' else 'false'
+    norm_ok = mt.get('/*r', {}).get('/a/./b/../c//') == [['r', 't', ['a', 'c']]] and mt.get('/*r', {}).get('/..') == [['r', 't', []]] \
+        and mt.get('/{x:.*}', {}).get('/a/b/c') == [['x', 's', 'a/b/c']]
+    cfg['restNormalised'] = 'true' if norm_ok else 'false'
+    return cfg, {'anchor': anchor, 'default': D, 'rest': G}
 
 
 def generate(src_root):
     f = facts(src_root)
-    lit = 'escaped' if f['escape_sites'] == ['re.escape(prefix)', 're.escape(s)'] and f.get('group_tpl') == '(?P<{name}>{reg})' else 'unknown'
-    cfg = {
-        'anchor': ANCHOR.get(f['anchor'], 'unknown'),
-        'phDefault': PH_DEFAULT.get(f['ph_default'], 'unknown'),
-        'restTpl': REST_TPL.get(f['rest_tpl'], 'unknown'),
-        'literals': lit,
-        'oldRe': OLD_RE.get(f['old_re'], 'unknown'),
-        'starRe': STAR_RE.get(f['star_re'], 'unknown'),
-        'routeRe': ROUTE_RE.get(f['route_re'], 'unknown'),
-        'splitFirstColon': 'true' if f['split_first_colon'] else 'false',
-        'loopInOrder': 'true' if f['loop_in_order'] else 'false',
-        'staticKeptOut': 'true' if f['static_kept_out'] else 'false',
-        'restNormalised': 'true' if f['rest_normalised'] else 'false',
-    }
+    problems = list(f.get('problems', []))
+    if not problems and (len(f.get('compile', [])) != len(CUBE) or len(f.get('mapper', [])) != len(MAPPER)):
+        problems.append('the probe answered %d of %d patterns and %d of %d scenarios'
+                        % (len(f.get('compile', [])), len(CUBE), len(f.get('mapper', [])), len(MAPPER)))
+    cfg, texts = derive_cfg(f)
     summary.clear()
-    summary.update({k: v for k, v in cfg.items()})
-    summary['source_texts'] = {k: f.get(k) for k in ('old_re', 'star_re', 'route_re', 'ph_default', 'rest_tpl', 'anchor', 'escape_sites', 'group_tpl')}
+    summary.update(cfg)
+    summary['source_texts'] = texts
+    summary['probes'] = {'patterns': len(f.get('compile', [])), 'matcher_calls': sum(len(p.get('matches', [])) for p in f.get('compile', [])),
+                         'mapper_scenarios': len(f.get('mapper', []))}
+    summary['problems'] = problems
     fields = ', '.join('%s := %s' % (k, v if v in ('true', 'false') else '.' + v) for k, v in cfg.items())
-    text = '''import PyramidModel.Route
-/-! GENERATED by extract/c01.py from src/pyramid/urldispatch.py — do not edit. -/
-namespace Pyr.Gen.C01
-open Pyr.Route
-
-/-- what `_compile_route` / `RoutesMapper` look like in the source tree under test -/
-def cfg : Cfg := { %s }
-
-/-! the source texts the constructors above were read from -/
-def oldReText : String := %s
-def starReText : String := %s
-def routeReText : String := %s
-def phDefaultText : String := %s
-def restTplText : String := %s
-def anchorText : String := %s
-def groupTplText : String := %s
-def literalSites : List String := [%s]
-
-end Pyr.Gen.C01
-''' % (fields, lean_str(f['old_re']), lean_str(f['star_re']), lean_str(f['route_re']), lean_str(f['ph_default']),
-       lean_str(f['rest_tpl']), lean_str(f['anchor']), lean_str(f.get('group_tpl')), ', '.join(lean_str(x) for x in f['escape_sites']))
-    return {'PyramidModel/Gen/C01.lean': text}
+    L = ['import PyramidModel.Lemmas.RouteProbe',
+         '/-! GENERATED by extract/c01.py by probing pyramid.urldispatch of the tree under test — do not edit. -/',
+         'namespace Pyr.Gen.C01', 'open Pyr.Route Pyr.Rx', '',
+         '/-- why the probe cannot be trusted (empty = it can) -/',
+         'def probeProblems : List String := [%s]' % ', '.join(lean_str(p[:200]) for p in problems), '',
+         '/-- the enum summary of `_compile_route` / `RoutesMapper`, derived from the probes below -/',
+         'def cfg : Cfg := { %s }' % fields, '',
+         'def anchorText : String := %s' % lean_str(texts['anchor'] or '<not found>'),
+         'def phDefaultText : String := %s' % lean_str(texts['default'] or '<not found>'),
+         'def restTplText : String := %s' % lean_str(texts['rest'] or '<not found>'), '',
+         '/-- the trees of the custom regexes used by the pattern cube (looked up by their printed text) -/',
+         'def probeLib : List Rx := [%s]' % ', '.join('(%s : Rx)' % t for _, t in RX_LIB),
+         'def probeLibTexts : List String := [%s]' % ', '.join(lean_str(t) for t, _ in RX_LIB), '',
+         '/-- pattern, regex text handed to re.compile (none = re.error), generator template, matcher answers -/',
+         'def compileProbes : List CProbe := [']
+    rows = []
+    for p in ([] if problems else f.get('compile', [])):
+        if p.get('regex') is None:
+            rows.append('  ⟨%s, none, none, []⟩' % lean_text(p['pattern']))
+        else:
+            ms = ', '.join('(%s, %s)' % (lean_text(a), lean_env(b)) for a, b in p.get('matches', []))
+            rows.append('  ⟨%s, some %s, some %s,\n    [%s]⟩' % (lean_text(p['pattern']), lean_text(p['regex']), lean_text(p['gen']), ms))
+    L.append(',\n'.join(rows))
+    L += [']', '', '/-- declarations (name, pattern, predicates, static), raw PATH_INFO, what the real mapper answered -/',
+          'def mapperProbes : List MProbe := [']
+    rows = []
+    for m in ([] if problems else f.get('mapper', [])):
+        ds = ', '.join('⟨%s, %s, [%s], %s⟩' % (lean_text(n), lean_text(p),
+                                               ', '.join('.const %s' % str(x).lower() if isinstance(x, bool) else '.eq %s %s' % (lean_text(x[1]), lean_text(x[2])) for x in ps),
+                                               str(s).lower()) for n, p, ps, s in m['decls'])
+        path = 'none' if m['path'] is None else 'some [%s]' % ', '.join(str(ord(c)) for c in m['path'])
+        o = m['out']
+        if o == 'none':
+            lo = '.noMatch'
+        elif o == 'urldecode':
+            lo = '.urlDecode'
+        elif isinstance(o, dict):
+            lo = '.hit %d (%s)' % (o['id'], lean_env(o['match'])[5:])
+        else:
+            lo = '.unknown'
+        rows.append('  ⟨[%s], %s, %s⟩' % (ds, path, lo))
+    L.append(',\n'.join(rows))
+    L += [']', '', 'end Pyr.Gen.C01', '']
+    return {'PyramidModel/Gen/C01.lean': '\n'.join(L)}
